@@ -3,7 +3,7 @@ import re
 from extract import ExtractError
 
 # R5: cast(<literal>).unwrap()  ->  model constant
-CAST_RE = re.compile(r'cast\(\s*(-?[0-9][0-9_]*(?:\.[0-9_]+)?(?:e-?[0-9]+)?)(f64|f32|i32|u32|usize|isize|)\s*\)\s*\.unwrap\(\)')
+CAST_RE = re.compile(r'cast\(\s*(-?[0-9][0-9_]*(?:\.[0-9_]+)?(?:e-?[0-9]+)?)(f64|f32|[iu](?:8|16|32|64|128|size)|)\s*\)\s*\.unwrap\(\)')
 
 
 def lit_const(m):
@@ -44,3 +44,21 @@ def apply_body_rules(body, unit, c, f):
     for extra in getattr(unit, 'body_rules', []):
         body = extra(body, c, f)
     return body
+
+
+def literal_block(text):
+    """rule R5: trusted model constants for every `Sc::lit_*()` the rewritten bodies use"""
+    from fractions import Fraction
+    names = sorted(set(re.findall(r'Sc::(lit_[0-9a-z]+)\(\)', text)))
+    if not names:
+        return ''
+    out = ['verus! {\n// ---- rule R5: literal constants (exact decimal value of the literal; rounding to S is part of A1)\nimpl Sc {\n']
+    for n in names:
+        v = n[4:].replace('p', '.').replace('m', '-')
+        fr = Fraction(v)
+        val = '%dreal' % fr.numerator if fr.denominator == 1 else '(%dreal / %dreal)' % (fr.numerator, fr.denominator)
+        if fr.numerator < 0:
+            val = '(0real - %s)' % val.replace('-', '')
+        out.append('    #[verifier::external_body] pub fn %s() -> (r: Sc) ensures r == s_lit(%s) { unimplemented!() }\n' % (n, val))
+    out.append('}\n} // verus!\n')
+    return ''.join(out)
